@@ -347,7 +347,8 @@ class ModuleTranslator:
         sub = _Scope("function", tab, qual + ".<locals>.", _implocals(tab))
         evs = []
         self.stmts(st.body, sub, evs)
-        self.add_func(qual, st.lineno, evs)
+        # the line CPython records for the code object (`co_firstlineno`): the first decorator, if there is one
+        self.add_func(qual, min([st.lineno] + [d.lineno for d in st.decorator_list]), evs)
         for s in tab.get_symbols():
             if s.is_declared_global() and s.is_assigned():
                 self.note("dynamic_global_assignment_in_function", st, f"{qual}: global {s.get_name()}")
